@@ -10,6 +10,9 @@ def lenChar (c : Char) : Bool :=
 
 def LenOk (s : Str) : Prop := s ≠ [] ∧ ∀ c ∈ s, lenChar c = true
 
+/-- a tree-weight text: a number text or a fraction of two (`"{}".format(tree.weight)` for int, float or Fraction weights) -/
+def WeightOk (s : Str) : Prop := s ≠ [] ∧ ∀ c ∈ s, (lenChar c = true ∨ c = '/')
+
 /-- an admissible label: non-empty, over the label domain -/
 def Adm (s : Str) : Prop := s ≠ [] ∧ ∀ c ∈ s, labelChar c = true
 
